@@ -98,6 +98,40 @@ func init() {
 				{File: st, Old: "\t\"path/filepath\"\n\t\"strings\"\n", New: "\t\"path/filepath\"\n\t\"slices\"\n\t\"strings\"\n"},
 				{File: st, Old: "\t// Check allowed paths with prefix matching and glob support\n", New: "\tif slices.Contains(h.cfg.AllowedPaths, \"*\") {\n\t\treturn nil\n\t}\n"},
 			}},
+			// ---- round 2: seeded classes and neighbours
+			{Name: "upload destination resolved when the metadata frame is accepted and parked in the stream record", ExpectRule: "C26.R7", ExpectKey: "DestPath", Edits: []Edit{
+				{File: ag, Old: "\tTempFile     *os.File // Temp file for streaming upload data\n", New: "\tTempFile     *os.File // Temp file for streaming upload data\n\tDestPath     string\n"},
+				{File: ag, Old: "\t\t\t// Create temp file for streaming upload (write directly to disk)\n", New: "\t\t\tdestPath, derr := a.fileStreamHandler.ResolvePath(meta.Path)\n\t\t\tif derr != nil {\n\t\t\t\ta.closeFileTransferStream(streamID, protocol.ErrNotAllowed, derr.Error())\n\t\t\t\treturn\n\t\t\t}\n\t\t\tfts.DestPath = destPath\n\n\t\t\t// Create temp file for streaming upload (write directly to disk)\n"},
+				{File: ag, Old: "destPath, err := a.fileStreamHandler.ResolvePath(fts.Meta.Path)", New: "destPath, err := fts.DestPath, error(nil)"},
+			}},
+			{Name: "resolved paths memoised in a map on the handler", ExpectRule: "C26.R7", ExpectKey: "resolved", Edits: []Edit{
+				{File: st, Old: "type StreamHandler struct {\n\tcfg StreamConfig\n}", New: "type StreamHandler struct {\n\tcfg      StreamConfig\n\tresolved map[string]string\n}"},
+				{File: st, Old: "\treturn &StreamHandler{cfg: cfg}\n", New: "\treturn &StreamHandler{cfg: cfg, resolved: map[string]string{}}\n"},
+				{File: st, Old: "\treturn h.resolveAllowedPath(path, true)\n", New: "\tif p, ok := h.resolved[path]; ok {\n\t\treturn p, nil\n\t}\n\tp, err := h.resolveAllowedPath(path, true)\n\tif err != nil {\n\t\treturn \"\", err\n\t}\n\th.resolved[path] = p\n\treturn p, nil\n"},
+			}},
+			{Name: "last resolved path kept in a package variable", ExpectRule: "C26.R7", ExpectKey: "lastReal", Edits: []Edit{
+				{File: st, Old: "// ResolvePath validates a requested path and returns", New: "var lastReq, lastReal string\n\n// ResolvePath validates a requested path and returns"},
+				{File: st, Old: "\treturn h.resolveAllowedPath(path, true)\n", New: "\tif path == lastReq && lastReal != \"\" {\n\t\treturn lastReal, nil\n\t}\n\tp, err := h.resolveAllowedPath(path, true)\n\tif err != nil {\n\t\treturn \"\", err\n\t}\n\tlastReq, lastReal = path, p\n\treturn p, nil\n"},
+			}},
+			{Name: "prefix matcher loses the separator step", ExpectRule: "C26.R8", ExpectKey: "isPathUnderPrefix", Edits: []Edit{
+				{File: st, Old: "\tif !strings.HasSuffix(cleanPrefix, string(filepath.Separator)) {\n\t\tcleanPrefix += string(filepath.Separator)\n\t}\n", New: ""},
+			}},
+			{Name: "prefix matcher by substring", ExpectRule: "C26.R8", ExpectKey: "strings.Contains", Edits: []Edit{
+				{File: st, Old: "\treturn strings.HasPrefix(cleanPath, cleanPrefix)\n", New: "\treturn strings.Contains(cleanPath, cleanPrefix)\n"},
+			}},
+			{Name: "any pattern containing a star counts as the wildcard", ExpectRule: "C26.R3", Edits: []Edit{
+				{File: st, Old: "\t\tif pattern == \"*\" {\n\t\t\treturn nil\n\t\t}\n", New: "\t\tif strings.Contains(pattern, \"*\") {\n\t\t\treturn nil\n\t\t}\n"},
+			}},
+			{Name: "follow flag of chmod taken from the request", ExpectRule: "C26.R5", ExpectKey: "browseChmod", Edits: []Edit{
+				{File: br, Old: "\trealPath, errResp := h.requirePath(req.Path, true)\n\tif errResp != nil {\n\t\treturn errResp\n\t}\n\n\tmode, err := parseOctalMode", New: "\trealPath, errResp := h.requirePath(req.Path, !req.Recursive)\n\tif errResp != nil {\n\t\treturn errResp\n\t}\n\n\tmode, err := parseOctalMode"},
+			}},
+			{Name: "rewrite: resolved destination handed on in a job record within the same activation", Edits: []Edit{
+				{File: ag, Old: "\twritten, err := a.fileStreamHandler.WriteUploadedFile(\n\t\tdestPath,\n", New: "\twritten, err := a.writeUploadJob(\n\t\t&uploadJob{dest: destPath},\n"},
+				{File: ag, Old: "// IsSleepEnabled returns true if sleep mode is enabled.\n", New: "type uploadJob struct{ dest string }\n\nfunc (a *Agent) writeUploadJob(j *uploadJob, r io.Reader, mode uint32, isDir bool, compressed bool) (int64, error) {\n\treturn a.fileStreamHandler.WriteUploadedFile(j.dest, r, mode, isDir, compressed)\n}\n\n// IsSleepEnabled returns true if sleep mode is enabled.\n"},
+			}},
+			{Name: "rewrite: separator appended by a helper", Edits: []Edit{
+				{File: st, Old: "\tif !strings.HasSuffix(cleanPrefix, string(filepath.Separator)) {\n\t\tcleanPrefix += string(filepath.Separator)\n\t}\n\n\treturn strings.HasPrefix(cleanPath, cleanPrefix)\n}\n", New: "\treturn strings.HasPrefix(cleanPath, withSeparator(cleanPrefix))\n}\n\nfunc withSeparator(p string) string {\n\tif strings.HasSuffix(p, string(filepath.Separator)) {\n\t\treturn p\n\t}\n\treturn p + string(filepath.Separator)\n}\n"},
+			}},
 			{Name: "rewrite: empty-list test dropped (loop does not run)", Edits: []Edit{
 				{File: st, Old: "\tif len(h.cfg.AllowedPaths) == 0 {\n\t\treturn fmt.Errorf(\"no paths are allowed (allowed_paths is empty)\")\n\t}\n", New: ""},
 			}},
@@ -140,7 +174,11 @@ func c26FollowField(f *types.Var) bool {
 	if f.Pkg() == nil {
 		return false
 	}
-	b, ok := f.Type().Underlying().(*types.Basic)
+	t := f.Type().Underlying()
+	if m, isMap := t.(*types.Map); isMap {
+		t = m.Elem().Underlying() // a cache of paths
+	}
+	b, ok := t.(*types.Basic)
 	if !ok || b.Info()&types.IsString == 0 {
 		return false
 	}
@@ -149,6 +187,56 @@ func c26FollowField(f *types.Var) bool {
 		return true
 	}
 	return false
+}
+
+// c26Cross is one continuation of a path-flow walk from a read of shared state into a write of it.
+type c26Cross struct {
+	read  ssa.Value
+	write ssa.Instruction
+	val   ssa.Value
+}
+
+// c26Parked is one (state, writer, reader) triple through which sanitised paths reach sinks.
+type c26Parked struct {
+	write, read ssa.Instruction
+	same        bool
+	sinks       []string
+}
+
+func c26Some(keys []string) string {
+	seen := map[string]bool{}
+	var out []string
+	for _, k := range keys {
+		if !seen[k] {
+			seen[k] = true
+			out = append(out, k)
+		}
+	}
+	sort.Strings(out)
+	if len(out) > 3 {
+		out = append(out[:3], "...")
+	}
+	return strings.Join(out, ", ")
+}
+
+// c26StateName names the shared state a value was read from.
+func c26StateName(read ssa.Value) string {
+	switch x := read.(type) {
+	case *ssa.UnOp:
+		if f, _ := kit.LoadedField(x); f != nil {
+			return "field " + f.Name()
+		}
+		if g, ok := x.X.(*ssa.Global); ok {
+			return "package variable " + g.Name()
+		}
+	case *ssa.Lookup:
+		for _, l := range kit.PhiLeaves(x.X) {
+			if f, _ := kit.LoadedField(l); f != nil {
+				return "map field " + f.Name()
+			}
+		}
+	}
+	return "shared state"
 }
 
 // c26SinkSite is one sink call with the path arguments to judge.
@@ -219,11 +307,12 @@ type c26Ctx struct {
 	sanOK      map[*ssa.Function]bool // sanitiser candidates -> valid
 	allowPred  map[*ssa.Function]int
 	parentOnly map[*ssa.Function]int
+	reach      map[[2]*ssa.Function]bool
 }
 
 func newC26Ctx(p *kit.Program) *c26Ctx {
 	return &c26Ctx{p: p, taint: map[*types.Var]bool{}, resolverFn: map[*ssa.Function]int{}, sanOK: map[*ssa.Function]bool{},
-		allowPred: map[*ssa.Function]int{}, parentOnly: map[*ssa.Function]int{}}
+		allowPred: map[*ssa.Function]int{}, parentOnly: map[*ssa.Function]int{}, reach: map[[2]*ssa.Function]bool{}}
 }
 
 func (cx *c26Ctx) isValidator(fn *ssa.Function) bool {
@@ -353,6 +442,8 @@ func runC26(p *kit.Program, r *kit.Report) {
 	r.Rule("C26.R1", "validate what you use: a sanitiser returns only paths it passed to the validator, and the resolution that produced them started from the request path in the normalised form the validator judges")
 	r.Rule("C26.R2", "validate after resolution: every non-constant path a sanitiser returns derives from symlink resolution (filepath.EvalSymlinks) only, and the validator call on that resolved value succeeded on the way to the return")
 	r.Rule("C26.R3", "deny by default: the allow-list validator returns nil only on a branch taken because an element of AllowedPaths equals the wildcard or matched the validator's subject")
+	r.Rule("C26.R7", "validate at the time of use: a sanitised path that reaches a sink through shared state (a field of a heap object, a map held in one, a package variable) was written there within the same activation - later in the writing function, or in a function called after the write - never by an earlier event (frame, request)")
+	r.Rule("C26.R8", "a string-prefix comparison between the validator's subject and an allowed pattern (in the matcher and the functions it calls) uses a prefix that provably ends with the path separator; substring, suffix and case-insensitive comparisons do not relate a path to an allowed directory")
 	r.Rule("C26.R6", "the path returned by a sanitiser (or by a function that only passes sanitiser results on) is used only where the accompanying error/response was found nil, or is returned together with it: a failed sanitiser yields the empty path, which filepath.Clean turns into the working directory")
 	r.Rule("C26.R5", "a sink that follows a symbolic link in the last path component (stat, open, readdir, chmod, mkdirall, ...) receives a fully resolved path; a sanitised path whose last component was deliberately kept reaches only operations on the link itself (remove, rename, lstat) or has that component stripped (filepath.Dir) first")
 	r.Rule("C26.R4", "every file-system sink whose path derives from TransferMetadata.Path or BrowseRequest.Path receives the value returned by a valid sanitiser")
@@ -450,6 +541,7 @@ func runC26(p *kit.Program, r *kit.Report) {
 	sinks := c26FindSinks(p, c26Sinks)
 	r.Count("fs_sink_calls_in_repo", len(sinks))
 	nTainted, nSan, nCut, nFollow := 0, 0, 0, 0
+	parked := map[string]*c26Parked{}
 	for _, s := range sinks {
 		for _, ai := range s.args {
 			args := s.call.Common().Args
@@ -457,8 +549,12 @@ func runC26(p *kit.Program, r *kit.Report) {
 				continue
 			}
 			var partial []ssa.Value // sanitiser results whose last component was left unresolved
-			q := &kit.PathFlow{Prog: p, FollowBodies: true, FollowParams: true, FollowField: c26FollowField,
+			var crossings []c26Cross
+			q := &kit.PathFlow{Prog: p, FollowBodies: true, FollowParams: true, FollowField: c26FollowField, FollowGlobals: true,
 				Source: cx.isTaintLoad, Barrier: isBarrier, Mark: c26StripsLast,
+				OnStateCross: func(read ssa.Value, write ssa.Instruction, val ssa.Value) {
+					crossings = append(crossings, c26Cross{read, write, val})
+				},
 				OnBarrier: func(v ssa.Value, stripped bool, argOf func(*ssa.Parameter) ssa.Value) {
 					evalArg := func(a ssa.Value) (bool, bool) { return c26EvalBool(a, nil, argOf, 0) }
 					if !stripped && cx.barrierParentOnly(v, evalArg) {
@@ -485,13 +581,47 @@ func runC26(p *kit.Program, r *kit.Report) {
 					nFollow++
 					r.Decide(len(partial) == 0, "C26.R5", s.key(ai), pos,
 						"the operation follows a link in the last component and receives a fully resolved path",
-						fmt.Sprintf("%s follows a symbolic link in the last path component, but the sanitised path it receives (from %s) had only its directory part resolved: a link as the last component leads the operation outside the allowed paths", s.name, c26Where(p, partial)))
+						fmt.Sprintf("%s follows a symbolic link in the last path component, but the sanitised path it receives (from %s) is not provably fully resolved (its last component may have been kept as named): a link as the last component leads the operation outside the allowed paths", s.name, c26Where(p, partial)))
+				}
+				// R7: the sanitised path must not have been parked in shared state by an earlier event
+				for _, c := range crossings {
+					rd, isInstr := c.read.(ssa.Instruction)
+					if !isInstr {
+						continue
+					}
+					sub := (&kit.PathFlow{Prog: p, FollowBodies: true, FollowParams: true, FollowField: c26FollowField, FollowGlobals: true,
+						Source: cx.isTaintLoad, Barrier: isBarrier}).Walk(c.val)
+					if len(sub.Barriers) == 0 {
+						continue
+					}
+					k := fmt.Sprintf("%s: written in %s, read in %s", c26StateName(c.read), kit.FuncName(c.write.Parent()), kit.FuncName(rd.Parent()))
+					pk := parked[k]
+					if pk == nil {
+						pk = &c26Parked{write: c.write, read: rd, same: true}
+						parked[k] = pk
+					}
+					if !g9SameActivation(c.write, rd, cx.reach) {
+						pk.same = false
+					}
+					pk.sinks = append(pk.sinks, s.key(ai))
 				}
 			}
 		}
 	}
 	r.Count("sinks_fed_by_sanitiser", nSan)
 	r.Count("link_following_sinks_fed_by_sanitiser", nFollow)
+	var pkeys []string
+	for k := range parked {
+		pkeys = append(pkeys, k)
+	}
+	sort.Strings(pkeys)
+	for _, k := range pkeys {
+		pk := parked[k]
+		r.Decide(pk.same, "C26.R7", k, p.Pos(pk.read.Pos()),
+			"the sanitised path is written to and read from this state within one activation",
+			fmt.Sprintf("a path that was resolved and validated is parked here (stored at %s) by an earlier event and consumed later by %d file operation(s) (%s): between the two events a path component can be replaced by a symbolic link, which the operation then follows outside the allowed paths; resolve-then-validate must run in the activation that performs the operation", p.Pos(pk.write.Pos()), len(pk.sinks), c26Some(pk.sinks)))
+	}
+	r.Count("sanitised_paths_passing_through_shared_state", len(parked))
 	r.Count("caller_chains_cut_at_depth_limit", nCut)
 	r.Count("sinks_fed_by_unsanitised_request_path", nTainted)
 	r.Require(nSan+nTainted >= 3, "floor: fewer than 3 file-system sinks are reachable from the request path fields (%d): the path-flow walk lost its subject", nSan+nTainted)
@@ -516,6 +646,10 @@ func c26FollowsLast(name string) bool {
 func c26Where(p *kit.Program, vs []ssa.Value) string {
 	var out []string
 	for _, v := range vs {
+		if c := c26ResultCall(v); c != nil {
+			out = append(out, kit.CalleeOf(c).Name+" at "+p.Pos(c.Pos()))
+			continue
+		}
 		out = append(out, p.Pos(v.Pos()))
 	}
 	return strings.Join(out, ", ")
@@ -605,29 +739,155 @@ type c26Env map[c26FieldKey]int64
 func c26EnvAt(at ssa.Instruction) c26Env {
 	env := c26Env{}
 	for _, g := range kit.GuardsOf(at) {
-		b, ok := g.Cond.(*ssa.BinOp)
-		if !ok || !((b.Op == token.EQL && g.Polarity) || (b.Op == token.NEQ && !g.Polarity)) {
-			continue
-		}
-		for _, pair := range [][2]ssa.Value{{b.X, b.Y}, {b.Y, b.X}} {
-			k, isConst := kit.ConstInt(pair[1])
-			if !isConst {
-				continue
-			}
-			if u, isLoad := pair[0].(*ssa.UnOp); isLoad && u.Op == token.MUL {
-				if fa, isFA := u.X.(*ssa.FieldAddr); isFA {
-					env[c26FieldKey{fa.X, kit.FieldOfAddr(fa)}] = k
-				}
-			}
-		}
+		c26AddFact(env, g.Cond, g.Polarity)
 	}
 	return env
 }
 
-// c26EvalBool evaluates a bool SSA value under env and param (a resolver of parameters to
-// call-site arguments); known=false when the value is not determined.
-func c26EvalBool(v ssa.Value, env c26Env, param func(*ssa.Parameter) ssa.Value, depth int) (val, known bool) {
+// c26EnvsAt is c26EnvAt for a point that may be entered over several branch edges each of
+// which establishes an equality (case A, B: of a switch): one environment per edge. When
+// nothing is known it returns a single empty environment.
+func c26EnvsAt(at ssa.Instruction) []c26Env {
+	if env := c26EnvAt(at); len(env) > 0 {
+		return []c26Env{env}
+	}
+	for d := at.Block(); d != nil; d = d.Idom() {
+		if len(d.Preds) < 2 || len(d.Preds) > 8 {
+			continue
+		}
+		var envs []c26Env
+		for _, pr := range d.Preds {
+			env := c26Env{}
+			if n := len(pr.Instrs); n > 0 {
+				if ifi, isIf := pr.Instrs[n-1].(*ssa.If); isIf && pr.Succs[0] != pr.Succs[1] {
+					c26AddFact(env, ifi.Cond, pr.Succs[0] == d)
+				}
+			}
+			if len(env) == 0 {
+				envs = nil
+				break
+			}
+			envs = append(envs, env)
+		}
+		if len(envs) > 0 {
+			return envs
+		}
+	}
+	return []c26Env{{}}
+}
+
+// c26AddFact records "x.f == constant" when cond with the given outcome says so.
+func c26AddFact(env c26Env, cond ssa.Value, outcome bool) {
+	b, ok := cond.(*ssa.BinOp)
+	if !ok || !((b.Op == token.EQL && outcome) || (b.Op == token.NEQ && !outcome)) {
+		return
+	}
+	for _, pair := range [][2]ssa.Value{{b.X, b.Y}, {b.Y, b.X}} {
+		k, isConst := kit.ConstInt(pair[1])
+		if !isConst {
+			continue
+		}
+		if u, isLoad := pair[0].(*ssa.UnOp); isLoad && u.Op == token.MUL {
+			if fa, isFA := u.X.(*ssa.FieldAddr); isFA {
+				env[c26FieldKey{fa.X, kit.FieldOfAddr(fa)}] = k
+			}
+		}
+	}
+}
+
+// c26Evaluator decides bool/integer SSA values from constants, field facts that hold at
+// the point of interest, parameters mapped to call-site arguments, and small repository
+// helper functions (evaluated by substituting their parameters).
+type c26Evaluator struct {
+	env   c26Env
+	param func(*ssa.Parameter) ssa.Value // parameter of the current function -> value in the outer scope
+	outer *c26Evaluator                  // evaluator for what param returns (nil: constants only)
+	feas  map[*ssa.BasicBlock]int        // block feasibility memo: 1 feasible, 2 infeasible, 3 in progress
+}
+
+// edgeFeasible: control can take pred->succ without contradicting a condition the
+// evaluator can decide: the branch at the end of pred allows it and pred itself is
+// feasible (some feasible edge enters it).
+func (e *c26Evaluator) edgeFeasible(pred, succ *ssa.BasicBlock, depth int) bool {
 	if depth > 12 {
+		return true
+	}
+	if n := len(pred.Instrs); n > 0 {
+		if ifi, isIf := pred.Instrs[n-1].(*ssa.If); isIf && pred.Succs[0] != pred.Succs[1] {
+			if val, known := e.boolOf(ifi.Cond, depth+1); known && val != (pred.Succs[0] == succ) {
+				return false
+			}
+		}
+	}
+	return e.blockFeasible(pred, depth+1)
+}
+
+func (e *c26Evaluator) blockFeasible(b *ssa.BasicBlock, depth int) bool {
+	if e.feas == nil {
+		e.feas = map[*ssa.BasicBlock]int{}
+	}
+	switch e.feas[b] {
+	case 1, 3:
+		return true // 3: on a cycle - assume feasible
+	case 2:
+		return false
+	}
+	if len(b.Preds) == 0 {
+		e.feas[b] = 1
+		return true
+	}
+	e.feas[b] = 3
+	ok := false
+	for _, pr := range b.Preds {
+		if e.edgeFeasible(pr, b, depth) {
+			ok = true
+			break
+		}
+	}
+	if ok {
+		e.feas[b] = 1
+	} else {
+		e.feas[b] = 2
+	}
+	return ok
+}
+
+func (e *c26Evaluator) intOf(v ssa.Value, depth int) (int64, bool) {
+	if depth > 12 || e == nil {
+		return 0, false
+	}
+	if k, ok := kit.ConstInt(v); ok {
+		return k, true
+	}
+	switch x := v.(type) {
+	case *ssa.Convert:
+		return e.intOf(x.X, depth+1)
+	case *ssa.ChangeType:
+		return e.intOf(x.X, depth+1)
+	case *ssa.UnOp:
+		if x.Op == token.MUL {
+			if fa, isFA := x.X.(*ssa.FieldAddr); isFA {
+				if have, ok := e.env[c26FieldKey{fa.X, kit.FieldOfAddr(fa)}]; ok {
+					return have, true
+				}
+			}
+		}
+	case *ssa.Parameter:
+		if e.param != nil {
+			if a := e.param(x); a != nil && a != ssa.Value(x) {
+				o := e.outer
+				if o == nil {
+					o = &c26Evaluator{}
+				}
+				return o.intOf(a, depth+1)
+			}
+		}
+	}
+	return 0, false
+}
+
+func (e *c26Evaluator) boolOf(v ssa.Value, depth int) (val, known bool) {
+	if depth > 12 || e == nil {
 		return false, false
 	}
 	if b, ok := kit.ConstBool(v); ok {
@@ -636,40 +896,43 @@ func c26EvalBool(v ssa.Value, env c26Env, param func(*ssa.Parameter) ssa.Value, 
 	switch x := v.(type) {
 	case *ssa.UnOp:
 		if x.Op == token.NOT {
-			b, ok := c26EvalBool(x.X, env, param, depth+1)
+			b, ok := e.boolOf(x.X, depth+1)
 			return !b, ok
 		}
 	case *ssa.Parameter:
-		if param != nil {
-			if a := param(x); a != nil && a != ssa.Value(x) {
-				return c26EvalBool(a, env, nil, depth+1)
+		if e.param != nil {
+			if a := e.param(x); a != nil && a != ssa.Value(x) {
+				o := e.outer
+				if o == nil {
+					o = &c26Evaluator{}
+				}
+				return o.boolOf(a, depth+1)
 			}
 		}
 	case *ssa.BinOp:
 		if x.Op != token.EQL && x.Op != token.NEQ {
 			break
 		}
-		for _, pair := range [][2]ssa.Value{{x.X, x.Y}, {x.Y, x.X}} {
-			k, isConst := kit.ConstInt(pair[1])
-			if !isConst {
-				continue
-			}
-			if u, isLoad := pair[0].(*ssa.UnOp); isLoad && u.Op == token.MUL {
-				if fa, isFA := u.X.(*ssa.FieldAddr); isFA {
-					if have, ok := env[c26FieldKey{fa.X, kit.FieldOfAddr(fa)}]; ok {
-						return (have == k) == (x.Op == token.EQL), true
-					}
-				}
-			}
+		l, ok1 := e.intOf(x.X, depth+1)
+		r, ok2 := e.intOf(x.Y, depth+1)
+		if ok1 && ok2 {
+			return (l == r) == (x.Op == token.EQL), true
 		}
 	case *ssa.Phi:
+		// a loop-carried value belongs to an earlier iteration: the facts about this
+		// iteration's values say nothing about it
+		for _, pr := range x.Block().Preds {
+			if x.Block().Dominates(pr) {
+				return false, false
+			}
+		}
 		n := 0
 		var res bool
-		for i, e := range x.Edges {
-			if !c26EdgeFeasible(x.Block().Preds[i], x.Block(), func(c ssa.Value) (bool, bool) { return c26EvalBool(c, env, param, depth+1) }) {
+		for i, edge := range x.Edges {
+			if !e.edgeFeasible(x.Block().Preds[i], x.Block(), depth+1) {
 				continue
 			}
-			b, ok := c26EvalBool(e, env, param, depth+1)
+			b, ok := e.boolOf(edge, depth+1)
 			if !ok {
 				return false, false
 			}
@@ -680,52 +943,69 @@ func c26EvalBool(v ssa.Value, env c26Env, param func(*ssa.Parameter) ssa.Value, 
 			n++
 		}
 		return res, n > 0
+	case *ssa.Call:
+		// a small repository helper: func isLinkType(t byte) bool { return t == '1' || t == '2' }
+		g := kit.CalleeOf(x).Static
+		if g == nil || g.Blocks == nil || !kit.IsRepoPkg(kit.FuncPkgPath(g)) || len(g.Blocks) > 12 {
+			break
+		}
+		inner := &c26Evaluator{outer: e, param: func(prm *ssa.Parameter) ssa.Value {
+			for i, q := range g.Params {
+				if q == prm && i < len(x.Call.Args) {
+					return x.Call.Args[i]
+				}
+			}
+			return nil
+		}}
+		n := 0
+		var res bool
+		for _, ret := range kit.Returns(g) {
+			if len(ret.Results) != 1 {
+				return false, false
+			}
+			b, ok := inner.boolOf(kit.ReturnResult(ret, 0), depth+1)
+			if !ok || (n > 0 && b != res) {
+				return false, false
+			}
+			res = b
+			n++
+		}
+		return res, n > 0
 	}
 	return false, false
 }
 
-// c26EdgeFeasible: the CFG edge pred->succ is not excluded by the conditions that eval can decide.
-func c26EdgeFeasible(pred, succ *ssa.BasicBlock, eval func(ssa.Value) (bool, bool)) bool {
-	gs := kit.Guards(pred)
-	if n := len(pred.Instrs); n > 0 {
-		if ifi, isIf := pred.Instrs[n-1].(*ssa.If); isIf && pred.Succs[0] != pred.Succs[1] {
-			gs = append(gs, kit.Guard{Cond: ifi.Cond, Polarity: pred.Succs[0] == succ, If: ifi})
-		}
-	}
-	for _, gd := range gs {
-		if val, known := eval(gd.Cond); known && val != gd.Polarity {
-			return false
-		}
-	}
-	return true
+// c26EvalBool evaluates a bool SSA value under env and param (a resolver of parameters to
+// call-site arguments); known=false when the value is not determined.
+func c26EvalBool(v ssa.Value, env c26Env, param func(*ssa.Parameter) ssa.Value, depth int) (val, known bool) {
+	return (&c26Evaluator{env: env, param: param}).boolOf(v, depth)
 }
 
-// barrierParentOnly: the sanitiser call whose result is v returns, for the arguments
-// supplied on this chain (constants, or values evalArg can decide), only paths from
-// parent-only resolver calls.
-func (cx *c26Ctx) barrierParentOnly(v ssa.Value, evalArg func(a ssa.Value) (bool, bool)) bool {
+// barrierKinds classifies the paths the sanitiser call behind v can return for the
+// arguments supplied on this chain (constants, or values evalArg can decide): partial =
+// some feasible return comes from a parent-only resolver call (last component kept as
+// named), full = some feasible return is fully resolved. An undecided selector makes both
+// kinds feasible.
+func (cx *c26Ctx) barrierKinds(v ssa.Value, evalArg func(a ssa.Value) (bool, bool)) (partial, full bool) {
 	call := c26ResultCall(v)
 	if call == nil {
-		return false
+		return false, false
 	}
 	g := kit.CalleeOf(call).Static
 	if g == nil {
-		return false
+		return false, false
 	}
 	// conditions inside g: decided through g's bool parameters
-	evalIn := func(c ssa.Value) (bool, bool) {
-		return c26EvalBool(c, nil, func(prm *ssa.Parameter) ssa.Value {
-			for i, q := range g.Params {
-				if q == prm && i < len(call.Call.Args) {
-					if b, known := evalArg(call.Call.Args[i]); known {
-						return ssa.Value(c26BoolConst(b))
-					}
+	evalIn := &c26Evaluator{param: func(prm *ssa.Parameter) ssa.Value {
+		for i, q := range g.Params {
+			if q == prm && i < len(call.Call.Args) {
+				if b, known := evalArg(call.Call.Args[i]); known {
+					return ssa.Value(c26BoolConst(b))
 				}
 			}
-			return nil
-		}, 0)
-	}
-	n, all := 0, true
+		}
+		return nil
+	}}
 	seen := map[ssa.Value]bool{}
 	var expand func(x ssa.Value)
 	expand = func(x ssa.Value) {
@@ -735,16 +1015,17 @@ func (cx *c26Ctx) barrierParentOnly(v ssa.Value, evalArg func(a ssa.Value) (bool
 		seen[x] = true
 		if phi, isPhi := x.(*ssa.Phi); isPhi {
 			for i, e := range phi.Edges {
-				if c26EdgeFeasible(phi.Block().Preds[i], phi.Block(), evalIn) {
+				if evalIn.edgeFeasible(phi.Block().Preds[i], phi.Block(), 0) {
 					expand(e)
 				}
 			}
 			return
 		}
 		for _, b := range cx.leadWalk(g, x).Barriers {
-			n++
-			if c := c26ResultCall(b); c == nil || !cx.isParentOnlyCall(g, c) {
-				all = false
+			if c := c26ResultCall(b); c != nil && cx.isParentOnlyCall(g, c) {
+				partial = true
+			} else {
+				full = true
 			}
 		}
 	}
@@ -755,7 +1036,14 @@ func (cx *c26Ctx) barrierParentOnly(v ssa.Value, evalArg func(a ssa.Value) (bool
 		}
 		expand(x)
 	}
-	return n > 0 && all
+	return
+}
+
+// barrierParentOnly: the sanitiser result v may be a path whose last component was left
+// unresolved (it is not provably fully resolved on this chain).
+func (cx *c26Ctx) barrierParentOnly(v ssa.Value, evalArg func(a ssa.Value) (bool, bool)) bool {
+	partial, _ := cx.barrierKinds(v, evalArg)
+	return partial
 }
 
 // c26BoolConst returns an SSA constant for b (used to feed decided arguments back into c26EvalBool).
@@ -946,7 +1234,7 @@ func (cx *c26Ctx) classifyCond(fn *ssa.Function, cond ssa.Value) (isHit, onTrue 
 		switch {
 		case pat != nil && sub != nil:
 			isHit, onTrue, subj = true, true, sub
-		case pat != nil && wildcard && sub == nil:
+		case pat != nil && wildcard && sub == nil && c26IsWildcardTest(cal, pat):
 			isHit, onTrue = true, true // slices.Contains(allowed, "*"), strings.EqualFold(pattern, "*")
 		case sub != nil && pat == nil && cx.isAllowPredicate(cal.Static):
 			isHit, onTrue, subj = true, true, sub
@@ -956,6 +1244,16 @@ func (cx *c26Ctx) classifyCond(fn *ssa.Function, cond ssa.Value) (isHit, onTrue 
 		onTrue = !onTrue
 	}
 	return
+}
+
+// c26IsWildcardTest: the call compares a whole AllowedPaths element (or looks the constant
+// up in the whole list) for equality; strings.Contains(pattern, "*") is not such a test -
+// it would turn every glob pattern into the wildcard.
+func c26IsWildcardTest(cal kit.Callee, pat ssa.Value) bool {
+	if _, isSlice := pat.Type().Underlying().(*types.Slice); isSlice {
+		return cal.Pkg == "slices" && (cal.Name == "Contains" || cal.Name == "Index")
+	}
+	return cal.Pkg == "strings" && cal.Name == "EqualFold"
 }
 
 // hitEdges: the CFG edges of fn taken because an allow hit occurred, and the subjects matched.
@@ -1083,6 +1381,7 @@ func (cx *c26Ctx) checkDenyByDefault(r *kit.Report, v *ssa.Function, normalisers
 			normalisers[n] = true
 		}
 	}
+	cx.checkMatcherPrefixes(r, v)
 	nNil := 0
 	for _, ret := range kit.Returns(v) {
 		if ret.Block() == v.Recover || !kit.ReturnsNilError(ret) {
@@ -1100,6 +1399,67 @@ func (cx *c26Ctx) checkDenyByDefault(r *kit.Report, v *ssa.Function, normalisers
 	r.Decide(len(subjects) > 0 || nNil == 0, "C26.R3", name+" matcher subject", p.Pos(v.Pos()),
 		"a matcher call relates the validator's parameter to an AllowedPaths element",
 		"no matcher call in the validator takes both a value derived from its parameter and an AllowedPaths element: the requested path is not what is compared with the allow-list")
+}
+
+// checkMatcherPrefixes decides R8 over the validator and the repository functions reachable
+// from it (depth 3): every strings.HasPrefix/HasSuffix/Contains/EqualFold call whose two
+// operands derive from two different parameters of the enclosing function (a path and a
+// pattern) must be a HasPrefix against a separator-terminated prefix.
+func (cx *c26Ctx) checkMatcherPrefixes(r *kit.Report, v *ssa.Function) {
+	p := cx.p
+	seen := map[*ssa.Function]bool{v: true}
+	level := []*ssa.Function{v}
+	var fns []*ssa.Function
+	for depth := 0; depth <= 3 && len(level) > 0; depth++ {
+		var next []*ssa.Function
+		for _, f := range level {
+			fns = append(fns, f)
+			for _, c := range kit.Calls(f) {
+				g := kit.CalleeOf(c).Static
+				if g != nil && g.Blocks != nil && kit.IsRepoPkg(kit.FuncPkgPath(g)) && !seen[g] {
+					seen[g] = true
+					next = append(next, g)
+				}
+			}
+		}
+		level = next
+	}
+	n := 0
+	for _, f := range fns {
+		ord := map[string]int{}
+		for _, rel := range g9StringRels(f) {
+			ord[rel.name]++
+			sp := (&kit.PathFlow{Prog: p, Within: f}).Walk(rel.s).Params
+			pp := (&kit.PathFlow{Prog: p, Within: f}).Walk(rel.p).Params
+			if len(sp) == 0 || len(pp) == 0 {
+				continue // one side is a constant / not parameter-derived: not a path-vs-pattern relation
+			}
+			same := true
+			inS := map[*ssa.Parameter]bool{}
+			for _, x := range sp {
+				inS[x] = true
+			}
+			for _, x := range pp {
+				if !inS[x] {
+					same = false
+				}
+			}
+			if same {
+				continue // both operands from the same parameter(s)
+			}
+			n++
+			key := fmt.Sprintf("%s strings.%s #%d", kit.FuncName(f), rel.name, ord[rel.name])
+			pos := p.Pos(rel.call.Pos())
+			if rel.name != "HasPrefix" {
+				r.Violation("C26.R8", key, pos, "a path is related to an allowed pattern with strings.%s: substring, suffix and case-insensitive matches accept paths outside the allowed directory (/srv/Share2, /x/srv/share) - containment needs a separator-terminated prefix test", rel.name)
+				continue
+			}
+			r.Decide(g9EndsWithSep(rel.p, 0), "C26.R8", key, pos,
+				"the prefix operand provably ends with the path separator",
+				"strings.HasPrefix against a prefix that does not provably end with the path separator: /var/wwwevil matches the allowed /var/www, so operations act outside the allowed paths")
+		}
+	}
+	r.Count("matcher_path_pattern_comparisons", n)
 }
 
 // checkSanitiser decides R1/R2 for one candidate (a function returning a path that calls a
